@@ -1515,11 +1515,7 @@ func (d *DotGit) walkReferencesTree(refs *[]*plumbing.Reference, relPath []strin
 			continue
 		}
 
-		ref, err := d.readReferenceFile(".", strings.Join(newRelPath, "/"))
-		if os.IsNotExist(err) {
-			// a race happened, and our file is gone now
-			continue
-		}
+		ref, err := d.looseReference(strings.Join(newRelPath, "/"))
 		if err != nil {
 			return err
 		}
@@ -1531,6 +1527,20 @@ func (d *DotGit) walkReferencesTree(refs *[]*plumbing.Reference, relPath []strin
 	}
 
 	return nil
+}
+
+// looseReference reads the loose reference file at relPath. A file that is
+// gone by now (a race) holds no value, and neither does an empty one: a
+// check-and-set that was refused for a packed-only reference leaves the file
+// it created behind, and an update in progress has truncated its file. The
+// packed value, if there is one, is listed from packed-refs.
+func (d *DotGit) looseReference(relPath string) (*plumbing.Reference, error) {
+	ref, err := d.readReferenceFile(".", relPath)
+	if os.IsNotExist(err) || errors.Is(err, ErrEmptyRefFile) {
+		return nil, nil
+	}
+
+	return ref, err
 }
 
 func (d *DotGit) addRefFromHEAD(refs *[]*plumbing.Reference) error {
